@@ -12,37 +12,55 @@ import WacProofs.Lemmas.ParserComplete
       also fails on a lexical-error item);
     * function type, function type reference: … other than `<` and `->`;
     * everything that ends with `;` or `}`: none.
+
+  Peek facts: a derivation from `abs st` yields `nextTok` facts (the item `Lexer::next` delivers),
+  which is what `parseToken`/`parseIdent`/`parseOptional` (taken) need; the parser *dispatches* on
+  the raw peek, so everything that feeds a dispatch is stated for the raw `peekTok`/`peekIn`: all
+  `*_first` lemmas, the `peekIn st peeks = true ∧ peekTok st ≠ some stop` part of the item
+  hypotheses of `delimited_list1`/`delimited_list0`/`delimited_many`, and the hypothesis of
+  `parseOptional_none` (`FollowLit.peekTok_ne` provides it from a follow condition).
 -/
 namespace Wac.C12
 open Wac Wac.Ast Wac.Lex Wac.Parse Wac.Spec.Grammar
 
 
 
-theorem next_of_nextTok {st : PState} {k : Token} (h : nextTok st = some k) :
-    st.next = (some (tokAt st), adv st) := by
-  have h1 := (toks_of_nextTok h).1
-  unfold adv tokAt
-  unfold PState.next
-  cases hs : st.toks with
-  | nil => rw [hs] at h1; simp at h1
-  | cons a l => simp
+theorem effToks_length_tc (d : Nat) (l : List LTok) : (effToks d l).length = l.length := by
+  induction l generalizing d with
+  | nil => simp [effToks]
+  | cons a r ih => rw [effToks_cons]; simp [ih]
 
-theorem abs_length_tc (st : PState) : (abs st).length = st.toks.length := by simp [abs]
+theorem abs_length_tc (st : PState) : (abs st).length = st.toks.length := by
+  simp [abs, eff, effToks_length_tc]
 
-theorem nextTok_ne_of_peekIn {st : PState} {ks : List Token} {k : Token} (h : peekIn st ks = true)
-    (hk : k ∉ ks) : nextTok st ≠ some k := by
+/-- the parser's (raw) peek is one of `ks`, so it is not `k` -/
+theorem peekTok_ne_of_peekIn {st : PState} {ks : List Token} {k : Token} (h : peekIn st ks = true)
+    (hk : k ∉ ks) : peekTok st ≠ some k := by
   obtain ⟨k', h1, h2⟩ := (peekIn_iff _ _).mp h
   intro h3; rw [h3] at h1; cases h1; exact hk h2
 
+theorem nextTok_ne_of_peekIn {st : PState} {ks : List Token} {k : Token} (h : peekIn st ks = true)
+    (hk : k ∉ ks) : nextTok st ≠ some k :=
+  fun h3 => peekTok_ne_of_peekIn h hk (peekTok_of_nextTok h3)
+
+/-- `parse_optional`, taken: the expected token is *delivered* -/
 theorem parseOptional_some {α} {st st' : PState} {k : Token} {cb : PState → PR α} {a : α}
     (h : nextTok st = some k) (hcb : cb (adv st) = .ok (a, st')) :
     parseOptional st k cb = .ok (some a, st') :=
   parseOptional_eq_ok.mpr (.inl ⟨h, a, hcb, rfl⟩)
 
+/-- `parse_optional`, not taken: the (raw) peek is another token -/
 theorem parseOptional_none {α} {st : PState} {k : Token} {cb : PState → PR α}
-    (h : nextTok st ≠ some k) (he : peekErr st = false) :
+    (h : peekTok st ≠ some k) (he : peekErr st = false) :
     parseOptional st k cb = .ok (none, st) :=
   parseOptional_eq_ok.mpr (.inr ⟨h, he, rfl, rfl⟩)
+
+/-- a rest that starts with a terminal outside `bad`: the parser does not peek a token of `bad` -/
+theorem FollowLit.peekTok_ne {bad : List Token} {st : PState} {k : Token}
+    (h : FollowLit bad (abs st)) (hk : k ∈ bad) : peekTok st ≠ some k := by
+  obtain ⟨k', hk', hnb⟩ := h.peek
+  rw [peekTok_of_nextTok hk']
+  intro e; cases e; exact hnb hk
 
 theorem FollowLit.of_cons {bad : List Token} {k : Token} {r1 r : List STok} (hk : isLit k = true)
     (hb : k ∉ bad) (h : r1 = litTok k :: r) : FollowLit bad r1 :=
@@ -104,7 +122,7 @@ theorem delimited_list1 {α β : Type} (stop : Token) (peeks : List Token) (item
     (hitem : ∀ st a r1, (a, r1) ∈ p (abs st) →
         (r1.head? = some comma ∨ r1.head? = some (litTok stop)) →
         ∃ x st1, item st = .ok (x, st1) ∧ er x = a ∧ abs st1 = r1 ∧
-          st1.toks.length < st.toks.length ∧ peekIn st peeks = true ∧ nextTok st ≠ some stop)
+          st1.toks.length < st.toks.length ∧ peekIn st peeks = true ∧ peekTok st ≠ some stop)
     {xs : List β} {r1 r : List STok} (n : Nat) (st : PState)
     (h : (xs, r1) ∈ list1 p n (abs st)) (hr : r1 = litTok stop :: r) (fuel : Nat)
     (hfuel : n + 2 ≤ fuel) :
@@ -140,12 +158,11 @@ theorem parseOptional_of_peek {α} {st : PState} {k : Token} (cb : PState → PR
   cases hcb : cb (adv st) with
   | ok v => obtain ⟨a, st'⟩ := v; exact parseOptional_some h hcb
   | error e =>
-    have ⟨h1, h2⟩ := toks_of_nextTok h
+    have ⟨h1, h2, _⟩ := toks_of_nextTok h
     rw [tok?_eq_some] at h2
-    unfold adv at hcb
     unfold parseOptional PState.peek
     rw [h1]
-    simp only [List.head?_cons, h2, if_true, hcb]
+    simp only [List.head?_cons, h2, if_true, parseToken_ok h, hcb]
     rfl
 
 
@@ -157,7 +174,8 @@ theorem gType_first {g : Nat} {st : PState} {x : Ty} {r : List STok}
   | succ g =>
     simp [gType, mem_gId, and_assoc] at h
     simp only [peekIn_iff, typePeeks]
-    rcases h with h|h|h|h|h|h|h|h|h|h|h|h|h|h|h|h|h|h|h|h|h <;> exact ⟨_, h.1, by decide⟩
+    rcases h with h|h|h|h|h|h|h|h|h|h|h|h|h|h|h|h|h|h|h|h <;>
+      exact ⟨_, peekTok_of_nextTok h.1, by decide⟩
 
 theorem mem_gTypeOrHole {g : Nat} {st : PState} {x : Option Ty} {r : List STok} :
     (x, r) ∈ gTypeOrHole g (abs st) ↔ ∃ g', g = g' + 1 ∧
@@ -189,7 +207,7 @@ theorem parseType_result (pf : Nat) (st : PState) (h : nextTok st = some .Result
       match r with
       | some (ok, err, span) => .ok (.Result ok err span, st)
       | none => .ok (.Result none none kw.span, st)) := by
-  simp only [parseType, h]
+  simp only [parseType, peekTok_of_nextTok h]
   rfl
 
 
@@ -211,7 +229,7 @@ theorem holeP_complete {g pf : Nat} (ih : ∀ g', g' < g → CT g') {st : PState
   · obtain ⟨t0, st', ht0, rfl, rfl, hl⟩ := ih g' (by omega) _ _ _ hty hf pf (by omega)
     have hin := gType_first hty
     have hnu : peekIs st .Underscore = false :=
-      (peekIs_false_iff _ _).mpr (nextTok_ne_of_peekIn hin (by decide))
+      (peekIs_false_iff _ _).mpr (peekTok_ne_of_peekIn hin (by decide))
     refine ⟨some t0, st', ?_, rfl, rfl, hl⟩
     simp [holeP, hnu, hin, ht0]
 
@@ -224,12 +242,12 @@ theorem parseType_complete_step (g : Nat) (ih : ∀ g', g' ≤ g → CT g') : CT
     ⟨k1, rfl, rfl⟩ | ⟨k1, rfl, rfl⟩ | ⟨k1, rfl, rfl⟩ | ⟨k1, rfl, rfl⟩ | ⟨k1, rfl, rfl⟩ |
     ⟨k1, rfl, rfl⟩ | ⟨k1, rfl, rfl⟩ | ⟨k1, rfl, rfl⟩ |
     ⟨k1, k2, a, b, hl, hclose, rfl⟩ | ⟨k1, k2, a, b, ha, hclose, rfl⟩ | ⟨k1, k2, a, b, ha, hclose, rfl⟩ |
-    ⟨k1, rfl, rfl⟩ | ⟨k1, k2, a, b, ha, hclose, rfl⟩ |
-    ⟨k1, k2, a, b, ha, u, b1, hcomma, a2, b2, ha2, hclose, rfl⟩ |
+    ⟨k1, rfl, rfl⟩ |
+    ⟨k1, k2, a, b, ha, (⟨o2, b2, ⟨a2, ⟨u, b1, hcomma, ha2⟩, rfl⟩, hclose, rfl⟩ | ⟨hclose, rfl⟩)⟩ |
     ⟨k1, k2, k3, k4, rfl, rfl⟩ | ⟨k1, rfl, rfl⟩
   iterate 13
     (have l1 := len_of_nextTok k1
-     simp only [parseType, k1, next_of_nextTok k1, Except.ok.injEq, Prod.mk.injEq]
+     simp only [parseType, peekTok_of_nextTok k1, next_of_nextTok k1, Except.ok.injEq, Prod.mk.injEq]
      exact ⟨_, _, ⟨rfl, rfl⟩, by simp [eraseTy], rfl, by omega⟩)
   · -- tuple
     have hr1 := head_of_mem_t hclose
@@ -241,10 +259,10 @@ theorem parseType_complete_step (g : Nat) (ih : ∀ g', g' ≤ g → CT g') : CT
           obtain ⟨x, st1, h1, h2, h3, h4⟩ := ih g (Nat.le_refl _) st a r1 ha
             (FollowLit.of_sep rfl (by decide) (by decide) hf) pf (by omega)
           exact ⟨x, st1, h1, h2, h3, h4, gType_first ha,
-            nextTok_ne_of_peekIn (gType_first ha) (by decide)⟩)
+            peekTok_ne_of_peekIn (gType_first ha) (by decide)⟩)
         g (adv (adv st)) hl hr1 pf (by omega)
     have l5 := len_of_nextTok k5
-    simp only [parseType, k1, parseToken_ok k1, parseToken_ok k2, hin, hdel, hne, parseToken_ok k5,
+    simp only [parseType, peekTok_of_nextTok k1, parseToken_ok k1, parseToken_ok k2, hin, hdel, hne, parseToken_ok k5,
       Except.ok_bind, Bool.not_true, Bool.false_eq_true, if_false, Except.ok.injEq, Prod.mk.injEq]
     exact ⟨_, _, ⟨rfl, rfl⟩, by simp [eraseTy, eraseTys_eq_map], habs5, by omega⟩
   · -- list
@@ -255,7 +273,7 @@ theorem parseType_complete_step (g : Nat) (ih : ∀ g', g' ≤ g → CT g') : CT
     have l1 := len_of_nextTok k1
     have l2 := len_of_nextTok k2
     have l4 := len_of_nextTok k4
-    simp only [parseType, k1, parseToken_ok k1, parseToken_ok k2, ht0, parseToken_ok k4,
+    simp only [parseType, peekTok_of_nextTok k1, parseToken_ok k1, parseToken_ok k2, ht0, parseToken_ok k4,
       Except.ok_bind, Except.ok.injEq, Prod.mk.injEq]
     exact ⟨_, _, ⟨rfl, rfl⟩, by simp [eraseTy], habs4, by omega⟩
   · -- option
@@ -266,33 +284,15 @@ theorem parseType_complete_step (g : Nat) (ih : ∀ g', g' ≤ g → CT g') : CT
     have l1 := len_of_nextTok k1
     have l2 := len_of_nextTok k2
     have l4 := len_of_nextTok k4
-    simp only [parseType, k1, parseToken_ok k1, parseToken_ok k2, ht0, parseToken_ok k4,
+    simp only [parseType, peekTok_of_nextTok k1, parseToken_ok k1, parseToken_ok k2, ht0, parseToken_ok k4,
       Except.ok_bind, Except.ok.injEq, Prod.mk.injEq]
     exact ⟨_, _, ⟨rfl, rfl⟩, by simp [eraseTy], habs4, by omega⟩
   · -- result
     have l1 := len_of_nextTok k1
-    obtain ⟨k, hk, hnb⟩ := hfollow.peek
-    have hno : nextTok (adv st) ≠ some .OpenAngle := by
-      intro h; rw [h] at hk; cases hk; simp at hnb
     rw [parseType_result pf st k1]
-    simp only [parseToken_ok k1, parseOptional_none hno hfollow.peekErr, Except.ok_bind,
-      Except.ok.injEq, Prod.mk.injEq]
+    simp only [parseToken_ok k1, parseOptional_none (hfollow.peekTok_ne (k := .OpenAngle) (by simp)) hfollow.peekErr,
+      Except.ok_bind, Except.ok.injEq, Prod.mk.injEq]
     exact ⟨_, _, ⟨rfl, rfl⟩, by simp [eraseTy, eraseTyOpt], rfl, by omega⟩
-  · -- result<ok>
-    have hr1 := head_of_mem_t hclose
-    obtain ⟨o, st3, ho, rfl, rfl, hl3⟩ := holeP_complete (g := g) (pf := pf)
-      (fun g' hg' => ih g' (by omega)) ha
-      (FollowLit.of_cons (k := .CloseAngle) rfl (by decide) hr1) (by omega)
-    obtain ⟨k4, habs4⟩ := abs_adv_of_cons (k := .CloseAngle) rfl hr1
-    have hnc : nextTok st3 ≠ some .Comma := by rw [k4]; decide
-    have l1 := len_of_nextTok k1
-    have l2 := len_of_nextTok k2
-    have l4 := len_of_nextTok k4
-    rw [parseType_result pf st k1]
-    simp only [parseToken_ok k1, parseOptional_of_peek _ k2, ho, parseOptional_none hnc
-      (peekErr_of_nextTok k4), parseToken_ok k4, Except.ok_bind, Option.getD_none,
-      Except.ok.injEq, Prod.mk.injEq]
-    exact ⟨_, _, ⟨rfl, rfl⟩, by simp [eraseTy, eraseTyOpt], habs4, by omega⟩
   · -- result<ok, err>
     have hb := (mem_t _ _ _ _).mp hcomma
     have hr1 := head_of_mem_t hclose
@@ -312,17 +312,32 @@ theorem parseType_complete_step (g : Nat) (ih : ∀ g', g' ≤ g → CT g') : CT
     simp only [parseToken_ok k1, parseOptional_of_peek _ k2, ho, parseOptional_of_peek _ k4, ho2,
       parseToken_ok k6, Except.ok_bind, Option.getD_some, Except.ok.injEq, Prod.mk.injEq]
     exact ⟨_, _, ⟨rfl, rfl⟩, by simp [eraseTy], habs6, by omega⟩
+  · -- result<ok>
+    have hr1 := head_of_mem_t hclose
+    obtain ⟨o, st3, ho, rfl, rfl, hl3⟩ := holeP_complete (g := g) (pf := pf)
+      (fun g' hg' => ih g' (by omega)) ha
+      (FollowLit.of_cons (k := .CloseAngle) rfl (by decide) hr1) (by omega)
+    obtain ⟨k4, habs4⟩ := abs_adv_of_cons (k := .CloseAngle) rfl hr1
+    have hnc : peekTok st3 ≠ some .Comma := by rw [peekTok_of_nextTok k4]; decide
+    have l1 := len_of_nextTok k1
+    have l2 := len_of_nextTok k2
+    have l4 := len_of_nextTok k4
+    rw [parseType_result pf st k1]
+    simp only [parseToken_ok k1, parseOptional_of_peek _ k2, ho, parseOptional_none hnc
+      (peekErr_of_nextTok k4), parseToken_ok k4, Except.ok_bind, Option.getD_none,
+      Except.ok.injEq, Prod.mk.injEq]
+    exact ⟨_, _, ⟨rfl, rfl⟩, by simp [eraseTy, eraseTyOpt], habs4, by omega⟩
   · -- borrow
     have l1 := len_of_nextTok k1
     have l2 := len_of_nextTok k2
     have l3 := len_of_nextTok k3
     have l4 := len_of_nextTok k4
-    simp only [parseType, k1, parseToken_ok k1, parseToken_ok k2, parseIdent_ok k3, parseToken_ok k4,
+    simp only [parseType, peekTok_of_nextTok k1, parseToken_ok k1, parseToken_ok k2, parseIdent_ok k3, parseToken_ok k4,
       Except.ok_bind, Except.ok.injEq, Prod.mk.injEq]
     exact ⟨_, _, ⟨rfl, rfl⟩, by simp [eraseTy, erase_identAt], rfl, by omega⟩
   · -- identifier
     have l1 := len_of_nextTok k1
-    simp only [parseType, k1, parseIdent_ok k1, Except.ok_bind, Except.ok.injEq, Prod.mk.injEq]
+    simp only [parseType, peekTok_of_nextTok k1, parseIdent_ok k1, Except.ok_bind, Except.ok.injEq, Prod.mk.injEq]
     exact ⟨_, _, ⟨rfl, rfl⟩, by simp [eraseTy, erase_identAt], rfl, by omega⟩
 
 
@@ -338,9 +353,9 @@ theorem parseType_complete (gf : Nat) :
 
 
 theorem gNamedType_first {g : Nat} {st : PState} {x : NamedType} {r : List STok}
-    (h : (x, r) ∈ gNamedType g (abs st)) : nextTok st = some .Ident := by
+    (h : (x, r) ∈ gNamedType g (abs st)) : peekTok st = some .Ident := by
   simp [gNamedType, mem_gId, and_assoc] at h
-  exact h.1
+  exact peekTok_of_nextTok h.1
 
 theorem parseNamedType_complete (gf : Nat) :
     Complete eraseNamedType parseNamedType gNamedType (FollowLit [.OpenAngle]) gf := by
@@ -360,7 +375,7 @@ theorem delimited_list0 {α β : Type} (stop : Token) (peeks : List Token) (item
     (hitem : ∀ st a r1, (a, r1) ∈ p (abs st) →
         (r1.head? = some comma ∨ r1.head? = some (litTok stop)) →
         ∃ x st1, item st = .ok (x, st1) ∧ er x = a ∧ abs st1 = r1 ∧
-          st1.toks.length < st.toks.length ∧ peekIn st peeks = true ∧ nextTok st ≠ some stop)
+          st1.toks.length < st.toks.length ∧ peekIn st peeks = true ∧ peekTok st ≠ some stop)
     {xs : List β} {r1 r : List STok} (n : Nat) (st : PState)
     (h : (xs, r1) ∈ list0 p n (abs st)) (hr : r1 = litTok stop :: r) (fuel : Nat)
     (hfuel : n + 2 ≤ fuel) :
@@ -396,9 +411,9 @@ theorem paramList_complete {g pf : Nat} (hpf : g + 2 ≤ pf) {st : PState} {ps :
     g (adv st) hl hr1 pf hpf⟩
 
 theorem gFuncType_first {g : Nat} {st : PState} {x : FuncType} {r : List STok}
-    (h : (x, r) ∈ gFuncType g (abs st)) : nextTok st = some .FuncKeyword := by
+    (h : (x, r) ∈ gFuncType g (abs st)) : peekTok st = some .FuncKeyword := by
   simp [gFuncType, and_assoc] at h
-  exact h.1
+  exact peekTok_of_nextTok h.1
 
 theorem parseFuncType_complete (gf : Nat) :
     Complete eraseFuncType parseFuncType gFuncType (FollowLit [.OpenAngle, .Arrow]) gf := by
@@ -420,9 +435,7 @@ theorem parseFuncType_complete (gf : Nat) :
       parseOptional_of_peek _ k6, parseResultList, hin, ht0, Except.ok_bind, if_true,
       Except.ok.injEq, Prod.mk.injEq]
     exact ⟨_, _, ⟨rfl, rfl⟩, by simp [eraseFuncType, eraseResultList], rfl, by omega⟩
-  · obtain ⟨k, hk, hnb⟩ := hf.peek
-    have hno : nextTok (adv st4) ≠ some .Arrow := by
-      intro h; rw [h] at hk; cases hk; simp at hnb
+  · have hno : peekTok (adv st4) ≠ some .Arrow := hf.peekTok_ne (by simp)
     simp only [parseFuncType, parseToken_ok k1, parseToken_ok k2, hdel, parseToken_ok k5,
       parseOptional_none hno hf.peekErr, Except.ok_bind, Except.ok.injEq, Prod.mk.injEq]
     exact ⟨_, _, ⟨rfl, rfl⟩, by simp [eraseFuncType, eraseResultList], rfl, by omega⟩
@@ -437,7 +450,7 @@ theorem parseFuncTypeRef_complete (gf : Nat) :
     simp only [parseFuncTypeRef, k1, h0, Except.ok_bind, Except.ok.injEq, Prod.mk.injEq]
     exact ⟨_, _, ⟨rfl, rfl⟩, by simp [eraseFuncTypeRef], rfl, hl⟩
   · have l1 := len_of_nextTok k1
-    simp only [parseFuncTypeRef, k1, parseIdent_ok k1, Except.ok_bind, Except.ok.injEq, Prod.mk.injEq]
+    simp only [parseFuncTypeRef, peekTok_of_nextTok k1, parseIdent_ok k1, Except.ok_bind, Except.ok.injEq, Prod.mk.injEq]
     exact ⟨_, _, ⟨rfl, rfl⟩, by simp [eraseFuncTypeRef, erase_identAt], rfl, by omega⟩
 
 
@@ -447,7 +460,7 @@ theorem delimited_many {α β : Type} (stop : Token) (peeks : List Token) (item 
     (er : α → β) (p : SP β) (hstop : isLit stop = true)
     (hitem : ∀ st a r1, (a, r1) ∈ p (abs st) →
         ∃ x st1, item st = .ok (x, st1) ∧ er x = a ∧ abs st1 = r1 ∧
-          st1.toks.length < st.toks.length ∧ peekIn st peeks = true ∧ nextTok st ≠ some stop)
+          st1.toks.length < st.toks.length ∧ peekIn st peeks = true ∧ peekTok st ≠ some stop)
     {xs : List β} {r1 r : List STok} (n : Nat) (st : PState)
     (h : (xs, r1) ∈ many p n (abs st)) (hr : r1 = litTok stop :: r) (fuel : Nat)
     (hfuel : n + 1 ≤ fuel) :
@@ -470,7 +483,7 @@ theorem gResourceItem_first {g : Nat} {st : PState} {x : ResourceMethod} {r : Li
     peekIn st [.ConstructorKeyword, .Ident] = true := by
   simp [gResourceItem, mem_gId, and_assoc] at h
   rw [peekIn_iff]
-  rcases h with h | h <;> exact ⟨_, h.1, by decide⟩
+  rcases h with h | h <;> exact ⟨_, peekTok_of_nextTok h.1, by decide⟩
 
 theorem parseResourceMethod_complete (gf : Nat) :
     Complete eraseResourceMethod parseResourceMethod gResourceItem (fun _ => True) gf := by
@@ -486,7 +499,7 @@ theorem parseResourceMethod_complete (gf : Nat) :
     have l2 := len_of_nextTok k2
     have l5 := len_of_nextTok k5
     have l6 := len_of_nextTok k6
-    simp only [parseResourceMethod, k1, parseConstructor, parseToken_ok k1, parseToken_ok k2, hdel,
+    simp only [parseResourceMethod, peekTok_of_nextTok k1, parseConstructor, parseToken_ok k1, parseToken_ok k2, hdel,
       parseToken_ok k5, parseToken_ok k6, Except.ok_bind, Except.ok.injEq, Prod.mk.injEq]
     exact ⟨_, _, ⟨rfl, rfl⟩, by simp [eraseResourceMethod], habs6, by omega⟩
   · -- static method
@@ -494,13 +507,13 @@ theorem parseResourceMethod_complete (gf : Nat) :
     obtain ⟨f0, st5, hf0, rfl, rfl, hl5⟩ := parseFuncType_complete gf _ _ _ hfn
       (FollowLit.of_cons (k := .Semicolon) rfl (by decide) hr1) pf hpf
     obtain ⟨k6, habs6⟩ := abs_adv_of_cons (k := .Semicolon) rfl hr1
-    have hs : peekIs (adv (adv st)) .StaticKeyword = true := (peekIs_iff _ _).mpr k3
+    have hs : peekIs (adv (adv st)) .StaticKeyword = true := (peekIs_iff _ _).mpr (peekTok_of_nextTok k3)
     have hadv : (adv (adv st)).next.2 = adv (adv (adv st)) := rfl
     have l1 := len_of_nextTok k1
     have l2 := len_of_nextTok k2
     have l3 := len_of_nextTok k3
     have l6 := len_of_nextTok k6
-    simp only [parseResourceMethod, k1, parseMethod, parseIdent_ok k1, parseToken_ok k2, hs, if_true,
+    simp only [parseResourceMethod, peekTok_of_nextTok k1, parseMethod, parseIdent_ok k1, parseToken_ok k2, hs, if_true,
       hadv, hf0, parseToken_ok k6, Except.ok_bind, Except.ok.injEq, Prod.mk.injEq]
     exact ⟨_, _, ⟨rfl, rfl⟩, by simp [eraseResourceMethod, erase_identAt], habs6, by omega⟩
   · -- method
@@ -514,15 +527,15 @@ theorem parseResourceMethod_complete (gf : Nat) :
     have l1 := len_of_nextTok k1
     have l2 := len_of_nextTok k2
     have l6 := len_of_nextTok k6
-    simp only [parseResourceMethod, k1, parseMethod, parseIdent_ok k1, parseToken_ok k2, hs,
+    simp only [parseResourceMethod, peekTok_of_nextTok k1, parseMethod, parseIdent_ok k1, parseToken_ok k2, hs,
       Bool.false_eq_true, if_false, hf0, parseToken_ok k6, Except.ok_bind, Except.ok.injEq,
       Prod.mk.injEq]
     exact ⟨_, _, ⟨rfl, rfl⟩, by simp [eraseResourceMethod, erase_identAt], habs6, by omega⟩
 
 theorem gResourceDecl_first {g : Nat} {st : PState} {x : ResourceDecl} {r : List STok}
-    (h : (x, r) ∈ gResourceDecl g (abs st)) : nextTok st = some .ResourceKeyword := by
+    (h : (x, r) ∈ gResourceDecl g (abs st)) : peekTok st = some .ResourceKeyword := by
   simp [gResourceDecl, mem_gId, and_assoc] at h
-  exact h.1
+  exact peekTok_of_nextTok h.1
 
 theorem parseResourceDecl_complete (gf : Nat) :
     Complete eraseResourceDecl parseResourceDecl gResourceDecl (fun _ => True) gf := by
@@ -533,7 +546,7 @@ theorem parseResourceDecl_complete (gf : Nat) :
     have l2 := len_of_nextTok k2
     have l3 := len_of_nextTok k3
     have hadv : (adv (adv st)).next.2 = adv (adv (adv st)) := rfl
-    simp only [parseResourceDecl, parseToken_ok k1, parseIdent_ok k2, k3, hadv, Except.ok_bind,
+    simp only [parseResourceDecl, parseToken_ok k1, parseIdent_ok k2, peekTok_of_nextTok k3, hadv, Except.ok_bind,
       Except.ok.injEq, Prod.mk.injEq]
     exact ⟨_, _, ⟨rfl, rfl⟩, by simp [eraseResourceDecl, erase_identAt], rfl, by omega⟩
   · have hr1 := head_of_mem_t hclose
@@ -542,13 +555,13 @@ theorem parseResourceDecl_complete (gf : Nat) :
       (fun st a r1 ha => by
         obtain ⟨x, st1, h1, h2, h3, h4⟩ := parseResourceMethod_complete gf st a r1 ha trivial pf hpf
         exact ⟨x, st1, h1, h2, h3, h4, gResourceItem_first ha,
-          nextTok_ne_of_peekIn (gResourceItem_first ha) (by decide)⟩)
+          peekTok_ne_of_peekIn (gResourceItem_first ha) (by decide)⟩)
       gf (adv (adv (adv st))) hms hr1 pf (by omega)
     have l1 := len_of_nextTok k1
     have l2 := len_of_nextTok k2
     have l3 := len_of_nextTok k3
     have l6 := len_of_nextTok k6
-    simp only [parseResourceDecl, parseToken_ok k1, parseIdent_ok k2, k3, parseToken_ok k3, hdel,
+    simp only [parseResourceDecl, parseToken_ok k1, parseIdent_ok k2, peekTok_of_nextTok k3, parseToken_ok k3, hdel,
       parseToken_ok k6, Except.ok_bind, Except.ok.injEq, Prod.mk.injEq]
     exact ⟨_, _, ⟨rfl, rfl⟩, by simp [eraseResourceDecl, erase_identAt], habs6, by omega⟩
 
@@ -569,9 +582,9 @@ theorem gVariantDecl_eqC (g : Nat) : gVariantDecl g = (do
     t "}"; pure ⟨[], id, cases⟩) := rfl
 
 theorem gVariantCaseC_first {g : Nat} {st : PState} {x : VariantCase} {r : List STok}
-    (h : (x, r) ∈ gVariantCaseC g (abs st)) : nextTok st = some .Ident := by
+    (h : (x, r) ∈ gVariantCaseC g (abs st)) : peekTok st = some .Ident := by
   simp [gVariantCaseC, mem_gId, and_assoc] at h
-  exact h.1
+  exact peekTok_of_nextTok h.1
 
 theorem parseVariantCase_complete (gf : Nat) :
     Complete eraseVariantCase parseVariantCase gVariantCaseC (FollowLit [.OpenParen]) gf := by
@@ -588,19 +601,17 @@ theorem parseVariantCase_complete (gf : Nat) :
     simp only [parseVariantCase, parseIdent_ok k1, parseOptional_of_peek _ k2, ht0, parseToken_ok k4,
       Except.ok_bind, Except.ok.injEq, Prod.mk.injEq]
     exact ⟨_, _, ⟨rfl, rfl⟩, by simp [eraseVariantCase, erase_identAt], habs4, by omega⟩
-  · obtain ⟨k, hk, hnb⟩ := hf.peek
-    have hno : nextTok (adv st) ≠ some .OpenParen := by
-      intro h; rw [h] at hk; cases hk; simp at hnb
+  · have hno : peekTok (adv st) ≠ some .OpenParen := hf.peekTok_ne (by simp)
     have l1 := len_of_nextTok k1
     simp only [parseVariantCase, parseIdent_ok k1, parseOptional_none hno hf.peekErr,
       Except.ok_bind, Except.ok.injEq, Prod.mk.injEq]
     exact ⟨_, _, ⟨rfl, rfl⟩, by simp [eraseVariantCase, erase_identAt], rfl, by omega⟩
 
 theorem gVariantDecl_first {g : Nat} {st : PState} {x : VariantDecl} {r : List STok}
-    (h : (x, r) ∈ gVariantDecl g (abs st)) : nextTok st = some .VariantKeyword := by
+    (h : (x, r) ∈ gVariantDecl g (abs st)) : peekTok st = some .VariantKeyword := by
   rw [gVariantDecl_eqC] at h
   simp [mem_gId, and_assoc] at h
-  exact h.1
+  exact peekTok_of_nextTok h.1
 
 theorem parseVariantDecl_complete (gf : Nat) :
     Complete eraseVariantDecl parseVariantDecl gVariantDecl (fun _ => True) gf := by
@@ -640,7 +651,7 @@ theorem gRecordDecl_eqC (g : Nat) : gRecordDecl g = (do
     t "}"; pure ⟨[], id, fields⟩) := rfl
 
 theorem gFieldC_first {g : Nat} {st : PState} {x : Field} {r : List STok}
-    (h : (x, r) ∈ gFieldC g (abs st)) : nextTok st = some .Ident := by
+    (h : (x, r) ∈ gFieldC g (abs st)) : peekTok st = some .Ident := by
   simp [gFieldC] at h
   obtain ⟨n, hn, _⟩ := h
   exact gNamedType_first hn
@@ -655,10 +666,10 @@ theorem parseField_complete (gf : Nat) :
   exact ⟨_, _, ⟨rfl, rfl⟩, by simp [eraseField, eraseNamedType], rfl, hl⟩
 
 theorem gRecordDecl_first {g : Nat} {st : PState} {x : RecordDecl} {r : List STok}
-    (h : (x, r) ∈ gRecordDecl g (abs st)) : nextTok st = some .RecordKeyword := by
+    (h : (x, r) ∈ gRecordDecl g (abs st)) : peekTok st = some .RecordKeyword := by
   rw [gRecordDecl_eqC] at h
   simp [mem_gId, and_assoc] at h
-  exact h.1
+  exact peekTok_of_nextTok h.1
 
 theorem parseRecordDecl_complete (gf : Nat) :
     Complete eraseRecordDecl parseRecordDecl gRecordDecl (fun _ => True) gf := by
@@ -703,16 +714,16 @@ theorem gEnumDecl_eqC (g : Nat) : gEnumDecl g = (do
     t "}"; pure ⟨[], id, cases⟩) := rfl
 
 theorem gFlagsDecl_first {g : Nat} {st : PState} {x : FlagsDecl} {r : List STok}
-    (h : (x, r) ∈ gFlagsDecl g (abs st)) : nextTok st = some .FlagsKeyword := by
+    (h : (x, r) ∈ gFlagsDecl g (abs st)) : peekTok st = some .FlagsKeyword := by
   rw [gFlagsDecl_eqC] at h
   simp [mem_gId, and_assoc] at h
-  exact h.1
+  exact peekTok_of_nextTok h.1
 
 theorem gEnumDecl_first {g : Nat} {st : PState} {x : EnumDecl} {r : List STok}
-    (h : (x, r) ∈ gEnumDecl g (abs st)) : nextTok st = some .EnumKeyword := by
+    (h : (x, r) ∈ gEnumDecl g (abs st)) : peekTok st = some .EnumKeyword := by
   rw [gEnumDecl_eqC] at h
   simp [mem_gId, and_assoc] at h
-  exact h.1
+  exact peekTok_of_nextTok h.1
 
 theorem parseFlagsDecl_complete (gf : Nat) :
     Complete eraseFlagsDecl parseFlagsDecl gFlagsDecl (fun _ => True) gf := by
@@ -770,9 +781,9 @@ theorem parseEnumDecl_complete (gf : Nat) :
 /-! ### type aliases -/
 
 theorem gTypeAlias_first {g : Nat} {st : PState} {x : TypeAlias} {r : List STok}
-    (h : (x, r) ∈ gTypeAlias g (abs st)) : nextTok st = some .TypeKeyword := by
+    (h : (x, r) ∈ gTypeAlias g (abs st)) : peekTok st = some .TypeKeyword := by
   simp [gTypeAlias, mem_gId, and_assoc] at h
-  exact h.1
+  exact peekTok_of_nextTok h.1
 
 theorem parseTypeAlias_complete (gf : Nat) :
     Complete eraseTypeAlias parseTypeAlias gTypeAlias (fun _ => True) gf := by
@@ -800,7 +811,7 @@ theorem parseTypeAlias_complete (gf : Nat) :
     obtain ⟨k6, habs6⟩ := abs_adv_of_cons (k := .Semicolon) rfl hr1
     have hin := gType_first hty
     have hfk : peekIs (adv (adv (adv st))) .FuncKeyword = false :=
-      (peekIs_false_iff _ _).mpr (nextTok_ne_of_peekIn hin (by decide))
+      (peekIs_false_iff _ _).mpr (peekTok_ne_of_peekIn hin (by decide))
     have l1 := len_of_nextTok k1
     have l2 := len_of_nextTok k2
     have l3 := len_of_nextTok k3
